@@ -402,6 +402,10 @@ func (a *vacc) rec(s string, d, maxLen int) {
 	}
 }
 
+func vsample(s string) string {
+	return fmt.Sprintf("validGroupName(%q)=%v validUsername=%v statement=%v", s, group.VerifC19ValidGroupName(s), group.VerifC19ValidUsername(s), refGroup(s))
+}
+
 func validators(res *core.Result, maxLen int) core.Sub {
 	t0 := time.Now()
 	all := &vacc{}
@@ -454,7 +458,7 @@ func validators(res *core.Result, maxLen int) core.Sub {
 		Exhaustive: true, MaxDepth: maxLen,
 		Bound:   fmt.Sprintf("all %d strings of <=%d symbols over %d symbols; validGroupName and validUsername vs the statement's predicate", all.total, maxLen, len(symbols)),
 		Note:    fmt.Sprintf("%d names accepted as group names", all.accepted),
-		Samples: []any{"a\\b -> rejected (backslash)", "a/./b -> rejected (dot-component)", "a/.../b -> accepted"},
+		Samples: []any{vsample("a\\b"), vsample("a/./b"), vsample("a/.../b")},
 		WallS:   time.Since(t0).Seconds()}
 }
 
